@@ -58,6 +58,7 @@ import (
 	"sort"
 	"strings"
 	"sync"
+	"sync/atomic"
 	"syscall"
 	"testing"
 	"time"
@@ -1054,7 +1055,13 @@ func cliTest(src, base string, useMemo bool) string {
 	defer os.RemoveAll(d)
 	p := filepath.Join(d, base)
 	_ = os.WriteFile(p, []byte(src), 0o644)
+	t0 := time.Now()
 	r := cli(d, cliTestLimit, "", "test", p)
+	if !inPrefetch.Load() { // prefetch accounts for its own wall time
+		corpusCLI.Lock()
+		corpusCLI.spent += time.Since(t0)
+		corpusCLI.Unlock()
+	}
 	v := testOutcome(r)
 	if r.TimedOut {
 		v = "TIMEOUT"
@@ -1066,6 +1073,41 @@ func cliTest(src, base string, useMemo bool) string {
 	memo.m[k] = v
 	memo.Unlock()
 	return v
+}
+
+// The number of corpus files that are run through `ego test`, and the time
+// spent on it, are bounded: on the unchanged tree about a dozen files need it
+// (0.3 s each); a tree on which most files change would otherwise spend the
+// whole budget here. A file beyond the bound is inconclusive, never a
+// violation.
+const (
+	corpusCLIMaxFiles = 40
+	corpusCLIMaxTime  = 300 * time.Second
+)
+
+var inPrefetch atomic.Bool
+
+var corpusCLI struct {
+	sync.Mutex
+	files map[string]bool
+	spent time.Duration
+}
+
+func corpusCLIAllowed(src string) bool {
+	corpusCLI.Lock()
+	defer corpusCLI.Unlock()
+	if corpusCLI.files == nil {
+		corpusCLI.files = map[string]bool{}
+	}
+	k := hashOf(src)
+	if corpusCLI.files[k] {
+		return true
+	}
+	if len(corpusCLI.files) >= corpusCLIMaxFiles || corpusCLI.spent > corpusCLIMaxTime {
+		return false
+	}
+	corpusCLI.files[k] = true
+	return true
 }
 
 // prefetch warms the memo for the corpus test files in parallel (pure
@@ -1088,8 +1130,19 @@ func prefetch(cases []Case) {
 		if _, _, same := describeDiff(c.Src, out); same {
 			continue
 		}
+		if !corpusCLIAllowed(c.Src) {
+			continue
+		}
 		jobs = append(jobs, job{c.Src, filepath.Base(c.Name)}, job{out, filepath.Base(c.Name)})
 	}
+	t0 := time.Now()
+	inPrefetch.Store(true)
+	defer func() {
+		inPrefetch.Store(false)
+		corpusCLI.Lock()
+		corpusCLI.spent += time.Since(t0)
+		corpusCLI.Unlock()
+	}()
 	ch := make(chan job)
 	var wg sync.WaitGroup
 	for w := 0; w < 8; w++ {
@@ -1539,6 +1592,8 @@ func oracle(c Case) vkit.Outcome {
 			out.Labels = append(out.Labels, "corpus: same program (tokens identical)")
 		} else if !haveCLI() {
 			out.Inconclusive = "corpus-test: ego binary not available"
+		} else if !corpusCLIAllowed(c.Src) {
+			out.Inconclusive = "corpus-test: not run (more than the allowed number of files or seconds of `ego test` runs)"
 		} else {
 			base := filepath.Base(c.Name)
 			a, b := cliTest(c.Src, base, true), cliTest(f1, base, true)
